@@ -181,7 +181,7 @@ type runCfg struct {
 // goOnly: lines the Lean driver is not asked about (judged on the
 // implementation alone).
 func goOnly(line string) bool {
-	return strings.HasPrefix(line, "Q ") || strings.HasPrefix(line, "TY ") || strings.HasPrefix(line, "Z ") || strings.HasPrefix(line, "XB ") || strings.HasPrefix(line, "XD ")
+	return strings.HasPrefix(line, "Q ") || strings.HasPrefix(line, "TY ") || strings.HasPrefix(line, "Z ") || strings.HasPrefix(line, "XB ") || strings.HasPrefix(line, "CB ") || strings.HasPrefix(line, "XD ")
 }
 
 // zLine is the history-poisoning call made before case idx (see poison.go); it is part of the
